@@ -47,6 +47,19 @@ CHECKS = {
             'Trusted: readcodetxt() of a freshly opened handle as "the documentation Darr generates for the current on-disk state"; '
             'the semantic line checks are wording-tolerant (skipped when a label is absent).',
             'DESIGN.md section 4 C08'),
+    'C11': ('opgraph', 'model_checking', E1,
+            'Mode-centric state graphs for Array and RaggedArray (empty first axis, non-empty, ragged with no / only zero-length '
+            'subarrays, with and without metadata, every way of obtaining mode r): every mutating entry point is a transition from '
+            'every reachable state; in r it must raise with a byte-identical directory, in r+ succeed with its effect observed.',
+            'Trusted: recursive byte snapshot as "every file byte-identical"; bound of 2 rows/subarrays.',
+            'DESIGN.md section 4 C11'),
+    'C13': ('opgraph', 'model_checking', E1,
+            'Fixpoint exploration of the metadata interface over keys {a,b} x 14 value kinds and keys {a,b,c} x 3 values, for Array '
+            'and RaggedArray, with and without metadata at creation; in every state all read accessors on the live and a fresh '
+            'handle equal the JSON round-trip of a dict model and metadata.json exists iff the model is non-empty; transition '
+            'oracle for pop/default, KeyError and the byte-identical TypeError case.',
+            'Trusted: json.dumps/loads round-trip with an own NumPy converter as reference; popitem may return any present key.',
+            'DESIGN.md section 4 C13'),
 }
 
 NOT_YET = {
